@@ -171,6 +171,11 @@ def checks(ctx, rep):
                     want = e["sd_new"] ** 2
                     if not (abs(e["last_s2"] - want) <= 1e-12 * max(1.0, abs(want))):
                         viol("noise_as_variance", SITE_A, f"appended noise entry {e['last_s2']} is not the reported SD squared ({e['sd_new']}^2 = {want})")
+                if e["specify"] and not merged and e["last_s2"] is not None and e.get("log_last_S") is not None and math.isfinite(e["log_last_S"]):
+                    # ... and it is the LOGGED SD of that evaluation squared (whatever the caller handed to the update as "its SD")
+                    want = e["log_last_S"] ** 2
+                    if not (abs(e["last_s2"] - want) <= 1e-12 * max(1.0, abs(want))):
+                        viol("noise_as_variance", SITE_A, f"appended noise entry {e['last_s2']} is not the logged SD squared ({e['log_last_S']}^2 = {want})")
                 if merged and e["specify"]:
                     # the observation was merged into an existing record: the log now holds ONE record (x, merged Y, merged S) for this point,
                     # the GP gets a second row for x whose noise entry is the single observation's
